@@ -14,17 +14,18 @@ from harness.common import canon, dec_val, enc_val, ensure_impl_on_path, known_p
 
 GEN_MODULES = ['excelutil', 'aggregates', 'stats']
 
-ASSUMPTIONS_MODEL = """correspondence leg: every validate_calcs run of the oracle streams (and two
-correspondence-only streams: tolerance=0 on the consistent file, stored result = the text of the cell's own
-formula) is replayed on the extracted loop model coq/Model/Validate.v (entry 'validate' of coq/Extract/C12.v) with
-the same (workbook, stored results, formula texts, tolerance, outputs); compared exactly: the mismatch dictionary
-(addresses in insertion order, original and calced of every entry) and the value of every cell of the cell map
-after the run.  Not compared: the 'exceptions' / 'not-implemented' buckets (oracle-only, third stream)."""
-
 ASSUMPTIONS = [
     "stored results are integers, text and logicals computed by the implementation itself on a no-data "
     "copy of the workbook (integer arithmetic: 'consistent' is exact)",
     "the .xlsx files are written with openpyxl and the cached values injected into the sheet XML",
+    "theorems: formula meaning is an arbitrary total function of the precedents' values (nothing raises: the "
+    "exceptions / not-implemented buckets are oracle-only); close_enough is computed on exact rationals "
+    "((1 + 1e-5) * tol and math.isclose without IEEE rounding; the generated alterations stay away from the boundary)",
+    "correspondence: every validate_calcs run of the two oracle streams, plus two correspondence-only streams "
+    "(tolerance=0 on the consistent file; stored result = the text of the cell's own formula — the model reproduces "
+    "both implementation behaviours, coq/Refuted/C12_*.v), is replayed on the extracted loop (entry 'validate' of "
+    "coq/Extract/C12.v) with the same workbook, stored results, formula texts, tolerance and outputs; compared "
+    "exactly: the mismatch dictionary (insertion order, original, calced) and every cell value after the run",
 ]
 
 
@@ -133,7 +134,9 @@ def run(ctx):
         "single-sheet DAG workbooks of 5-9 cells (C01 generator, integer/text/logical results) written as .xlsx "
         "with consistent stored results; then each formula cell in turn gets a perturbed stored result (number "
         "+-{tol/2, tol, 2 tol, 1}, text, logical, error value) x tolerance in {None, 0.001, 1} x checked outputs "
-        "(all formulas / one output); distinct = distinct (workbook, perturbed cell, perturbation, tolerance, outputs)")
+        "(all formulas / one output); distinct = distinct (workbook, perturbed cell, perturbation, tolerance, outputs); "
+        "every run is also replayed on the extracted loop model (correspondence:*), with two correspondence-only "
+        "streams per workbook: tolerance=0, and a stored result equal to the formula's own text")
     nwb = ctx.n(60, 600)
     batch = []
     for k in range(nwb):
